@@ -5,9 +5,11 @@
    OBSERVED values.  One initial state per case; one verdict line per case.
 
      merge case  [k |-> "merge", base, child, res, baseAfter, childAfter]
-     load case   [k |-> "load", S, fs, pre, doc, out, cfg0, cfg, repl]
+     load case   [k |-> "load", S, fs, pre, doc, out, cfg0, cfg, repl (, via, opt)]
                  cfg0 / cfg: the configuration projected before / after the call,
-                 repl: paths of nested configurations whose object changed             *)
+                 repl: paths of nested configurations whose object changed,
+                 via: "load" | "loads" (default), opt: format and formatter options the
+                 call was given (default: none, any format)                            *)
 EXTENDS CincoInclude, Json, IOUtils
 
 Cases == JsonDeserialize(IOEnv.TRACE_FILE)
@@ -29,34 +31,40 @@ MergeVerdict(c) ==
                   [] n = "result"       -> ~SameTree(Merge(c.base, c.child), c.res)},
      m |-> [res |-> Merge(c.base, c.child)]]
 
+OptOf(c) == IF "opt" \in DOMAIN c THEN c.opt ELSE DefOpt("any")
+ViaOf(c) == IF "via" \in DOMAIN c THEN c.via ELSE "loads"
+
 LoadVerdict(c) ==
     LET S      == c.S
         fs     == c.fs
+        o      == OptOf(c)
         cfg0   == FixCfg(c.cfg0)
         cfg    == FixCfg(c.cfg)
         model0 == LoadTreeOp(S, Default(S), c.pre, fs, <<>>)
         parsed == c.doc.k = "tree"
-        r1     == IF parsed THEN ProcIncs(S, c.doc.v, fs, <<>>) ELSE ProcRes(FALSE, NoneV, "parse", <<>>)
-        r2     == IF r1.ok THEN LoadTreeOp(S, cfg0, r1.tree, fs, <<>>) ELSE LoadRes(FALSE, cfg0, {}, FALSE)
-        mout   == IF r1.ok /\ r2.ok THEN "ok" ELSE "rejected"
-        early  == ~r1.ok                          \* failed in the parser or in include resolution
-        d      == IF parsed THEN Decl(S, c.doc.v, fs) ELSE Bad
+        m      == RunLoad(S, cfg0, ViaOf(c), o, c.doc, fs)
+        called == m.failedAt # "call"
+        early  == m.failedAt \in {"call", "parse", "include"}   \* failed before load_tree
+        d      == IF parsed /\ called THEN DeclDoc(S, o, TagOf(c.doc), c.doc.v, fs) ELSE Bad
         ref    == IF d.ok THEN LoadTreeOp(S, cfg0, d.tree, fs, <<>>) ELSE LoadRes(FALSE, cfg0, {}, FALSE)
-    IN  IF model0.unmodelled \/ r2.unmodelled \/ ref.unmodelled
-        THEN [t |-> tid, skip |-> TRUE, bad |-> {}, m |-> [out |-> mout]]
+        twin   == RunLoad(S, cfg0, "loads", DefOpt("any"), PlainDoc(o, c.doc), PlainFs(o, fs))
+    IN  IF model0.unmodelled \/ m.unmodelled \/ ref.unmodelled
+        THEN [t |-> tid, skip |-> TRUE, bad |-> {}, m |-> [out |-> m.out]]
         ELSE
         [t |-> tid, skip |-> FALSE,
-         bad |-> {n \in {"pre", "out", "cfg", "C06_LoadUnchanged", "C18_Equivalent", "C18_PathRule"} :
+         bad |-> {n \in {"pre", "out", "cfg", "C06_LoadUnchanged", "C18_Equivalent", "C18_OptionsUniform", "C18_PathRule"} :
                     CASE n = "pre" -> ~(model0.ok /\ SameCfg(model0.cfg, cfg0))
-                      [] n = "out" -> c.out # mout
-                      [] n = "cfg" -> c.out = "ok" /\ mout = "ok" /\ ~SameCfg(r2.cfg, cfg)
+                      [] n = "out" -> c.out # m.out
+                      [] n = "cfg" -> c.out = "ok" /\ m.out = "ok" /\ ~SameCfg(m.cfg, cfg)
                       [] n = "C06_LoadUnchanged" ->
                             early /\ c.out = "rejected" /\ ~P_Unchanged(cfg0, cfg, Range(c.repl))
                       [] n = "C18_Equivalent" ->
-                            parsed /\ (IF d.ok THEN ~P_Equivalent(c.out, cfg, IF ref.ok THEN "ok" ELSE "rejected", ref.cfg)
-                                       ELSE c.out # "rejected")
-                      [] n = "C18_PathRule" -> ~P_PathRule(r1.used, c.out)},
-         m |-> [out |-> mout, why |-> r1.why, early |-> early, cfg |-> r2.cfg, defined |-> d.ok]]
+                            parsed /\ called
+                            /\ (IF d.ok THEN ~P_Equivalent(c.out, cfg, IF ref.ok THEN "ok" ELSE "rejected", ref.cfg)
+                                ELSE c.out # "rejected")
+                      [] n = "C18_OptionsUniform" -> called /\ ~P_Equivalent(c.out, cfg, twin.out, twin.cfg)
+                      [] n = "C18_PathRule" -> ~P_PathRule(m.used, c.out)},
+         m |-> [out |-> m.out, why |-> m.why, failedAt |-> m.failedAt, early |-> early, cfg |-> m.cfg, defined |-> d.ok]]
 
 Verdict(c) == IF c.k = "merge" THEN MergeVerdict(c) ELSE LoadVerdict(c)
 
